@@ -15,15 +15,20 @@ theorem fromBytes_ok (t : Nat) (v : Bytes) (ht1 : 1 ≤ t) (ht2 : t ≤ 65535) :
 /-- the five typed-number kinds -/
 def IsNumType (t : Nat) : Prop := t = 50 ∨ t = 52 ∨ t = 54 ∨ t = 56 ∨ t = 58
 
+/-- the types of the generated `ALTERNATE_URI_TYPE` are the five typed-number kinds -/
+theorem altUriType_keys : Gen.C09.altUriType.map (·.1) = [50, 52, 54, 56, 58] := by decide
+
 theorem altUriOfType_none (t : Nat) (h : ¬ IsNumType t) : altUriOfType t = none := by
   unfold IsNumType at h
-  unfold altUriOfType
-  have h1 : ¬ t = 50 := fun e => h (by simp [e])
-  have h2 : ¬ t = 52 := fun e => h (by simp [e])
-  have h3 : ¬ t = 54 := fun e => h (by simp [e])
-  have h4 : ¬ t = 56 := fun e => h (by simp [e])
-  have h5 : ¬ t = 58 := fun e => h (by simp [e])
-  simp [h1, h2, h3, h4, h5]
+  have hnone : (Gen.C09.altUriType.find? fun p => p.1 == t) = none := by
+    rw [List.find?_eq_none]
+    intro p hp hb
+    have h2 : p.1 = t := by simpa using hb
+    have h3 : p.1 ∈ Gen.C09.altUriType.map (·.1) := List.mem_map.mpr ⟨p, hp, rfl⟩
+    rw [altUriType_keys, h2] at h3
+    simp at h3
+    exact h h3
+  simp [altUriOfType, hnone]
 
 theorem altUriOfType_some (t : Nat) (h : IsNumType t) :
     ∃ s, altUriOfType t = some s ∧ altTypeOfStr s = some t ∧ s ≠ [] ∧
